@@ -10,7 +10,8 @@ PROPERTY_ID = "C04"
 RULE = ("Hypothesis build programs (<= 10 items per circuit, nesting <= 2, 4 qubits) over all duration-carrying "
         "operation kinds with fixed / registry / global durations from {0,.25,.5,1,1.5,2,3,7}, explicit relations of "
         "all three types on ~70 % of the items (references to earlier operations and sub-circuits), interpreted through "
-        "DeclarativeCircuit.add under a generated global-duration override. Oracle: for the circuit and every "
+        "DeclarativeCircuit.add under a generated global-duration override; up to two nested blocks per program are additionally "
+        "re-scheduled after add() through their assignable relation (FOLLOWED_BY / JOINED_START to an earlier item of the same circuit). Oracle: for the circuit and every "
         "sub-circuit the reported duration must equal max end - min start over the operations it lists (reported "
         "times), 0 when empty; and every operation FOLLOWED_BY a block none of whose operations start before the "
         "block's start must start no earlier than every end inside the block; both clauses again after apply_modifiers(), "
@@ -20,7 +21,7 @@ RULE = ("Hypothesis build programs (<= 10 items per circuit, nesting <= 2, 4 qub
         "a first-placed one, according to the reference model; distinct = distinct canonical JSON of the program.")
 ASSUMPTIONS = [
     "start/end times reported by operations after one listing are taken at face value (their correctness is C01)",
-    "sub-circuits are added through DeclarativeCircuit.add and sequenced implicitly (the public way to nest)",
+    "sub-circuits are added through DeclarativeCircuit.add (the public way to nest); add() sequences them implicitly, an explicit relation can only be assigned to the returned block afterwards - generated for FOLLOWED_BY / JOINED_START; a JOINED_END block is outside the domain (no add call produces one, and a listing hands the block's relation to its first operations, which means something else for JOINED_END)",
 ]
 
 KINDS = P.MW_KINDS[:4] + P.SELECT_1Q + P.GENERIC_1Q + P.GENERIC_2Q + ["CPhase", "VirtualTwoQubitVacant", "Reset",
@@ -42,7 +43,23 @@ def strat():
         "g": st.lists(pos, min_size=4, max_size=4), "flat": st.booleans(),
         "dreg": st.fixed_dictionaries({"k0": st.sampled_from(P.DYADIC), "k1": st.sampled_from(P.DYADIC)})})
     # "peek": the unfinished circuit's duration and times are read before every add (a user looking while building)
-    return st.tuples(P.program_strategy(cfg()), second, st.booleans()).map(lambda t: dict(t[0], second=t[1], peek=t[2]))
+    relink = st.lists(st.tuples(st.integers(0, 7), st.sampled_from("FS"), st.integers(0, 9)), max_size=2)
+    return st.tuples(P.program_strategy(cfg()), second, st.booleans(), relink).map(
+        lambda t: relink_blocks(dict(t[0], second=t[1], peek=t[2]), t[3]))
+
+
+def relink_blocks(program, choices):
+    """Give up to two nested blocks (not the first item of their circuit) an explicit relation to an earlier item of the
+    same circuit: item['srel'] = [type, index]; interpreted by programs.build after the block was added.
+    FOLLOWED_BY / JOINED_START only: a listing hands the block's relation to the block's first operations, which has the same
+    meaning for these two types; for JOINED_END it has not (the first operation's end, not the block's end, is joined), and
+    no add call can produce such a block, so that case is outside the build programs the property quantifies over."""
+    subs = [(p, it) for p, it in P.iter_items(program["top"]) if P.is_sub(it) and p[-1] > 0]
+    for a, typ, r in choices:
+        if subs:
+            p, it = subs[a % len(subs)]
+            it["srel"] = [typ, r % p[-1]]
+    return program
 
 
 def off_leaf_circuits(root: M.MCirc):
@@ -81,6 +98,7 @@ def body(case, ctx):
         f"off_leaf={bool(off)}", f"nesting={st['nesting']}", f"global={st['global']}",
         f"empty_sub={any(P.is_sub(it) and not it['sub']['items'] for _, it in P.iter_items(program['top']))}",
         f"rel_types={''.join(st['rel_types'])}", f"reconfigured={bool(program.get('second'))}", f"peek={bool(program.get('peek'))}",
+        f"relinked_block={any(P.is_sub(it) and it.get('srel') for _, it in P.iter_items(program['top']))}",
         f"flattened={bool(program.get('second') and program['second']['flat'])}"])
     facts = {"off_leaf_paths": [list(p) for p in off]}
     with P.global_override(program.get("g")):
